@@ -34,8 +34,25 @@ def splitDrops : Input :=
     groups := [{ bats := [{ id := 3, cap := 10, soc := 50, socLo := 10, socHi := 90, il := -1000, el := -400, eu := 400, iu := 1000 }]
                  invs := [{ id := 1, il := -300, el := 0, eu := 0, iu := 300 }, { id := 2, il := -300, el := -300, eu := 300, iu := 300 }] }] }
 
-/-- NEW: four groups with minimum power 100 W each (two through the battery, two through the inverter):
-the pool advertises an exclusion bound of 200 W, 200 W is admitted, one inverter is commanded −100 W. -/
+/-- Four groups with exclusion bound = inclusion bound = 100 W, one of them with almost all the capacity
+(request 1000 W, beyond the inclusion bounds): every deficit of the small groups is subtracted from
+`distributed_power`, which ends at about −144 W; all groups sit at 100 W and the reported remainder is
+≈ 1144.5 W — larger than the request. -/
+def remainderExceeds : Input :=
+  { power := 1000, exp := 1
+    groups := [pair 1 11 1000 50 100 100 0 100, pair 2 12 1 50 100 100 0 100, pair 3 13 1 50 100 100 0 100,
+               pair 4 14 1 50 100 100 0 100] }
+
+/-- Tolerance corner `isclose_cover` (not a finding): the excess 25 − 7.5e-9 W covers the deficit
+25 + 7.5e-9 W through `math.isclose`; the second inverter's set-point is −1.5e-8 W. -/
+def iscloseCorner : Input :=
+  { power := 100, exp := 1
+    groups := [pair 1 11 10 50 (75 * (1 + 1 / 10000000000)) 400 0 400, pair 2 12 10 50 0 400 0 400] }
+
+/-- OUTSIDE the domain (kept for the correspondence check): four groups with minimum power 100 W each, two
+through the battery and two through the inverter.  `BatteryManager._get_bounds` enforces only 200 W and
+forwards a 200 W request (one inverter is then commanded −100 W), but the pool ADVERTISES an exclusion bound
+of 400 W, so the request is not admitted by the advertised bounds. -/
 def overcommit : Input :=
   { power := 200, exp := 1
     groups := [pair 1 11 10 50 100 500 0 500, pair 2 12 10 50 100 500 0 500, pair 3 13 10 50 0 500 100 500,
@@ -44,11 +61,6 @@ def overcommit : Input :=
 /-- DESIGN §5 #3: exponent 0, one of two equal batteries is full; it still gets half of the power. -/
 def exponentZero : Input :=
   { power := 100, exp := 0, groups := [pair 1 11 10 90 0 500 0 500, pair 2 12 10 50 0 500 0 500] }
-
-/-- two groups with minimum power 100 W (one through the battery, one through the inverter): the pool
-advertises 100 W, 150 W is admitted, the first group is commanded 50 W — inside its exclusion zone. -/
-def overcommitSmall : Input :=
-  { power := 150, exp := 1, groups := [pair 1 11 10 50 100 500 0 500, pair 2 12 10 50 0 500 100 500] }
 
 /-- A non-trivial case outside every regime: three groups, exclusion bounds, one group without headroom,
 a two-inverter group, request beyond one group's share. -/
